@@ -219,7 +219,9 @@ def run(sc, choices=None):
     if sender is not None and (disp != "builtin" or sc.get("tls") or closer):
         raise InvalidScenario("the blocked application thread is combined with the built-in loop, plain transport, no close()")
     asc = {"conns": conns, "callbacks": cbs, "run": runopt, "closer": app_closer, "policy": sc.get("policy"), "sender": sender,
-           "seed": sc.get("seed", 1), "time_cap_s": int(horizon / S) + 100, "step_cap": 1_500_000, "linger": rr + 8 * S,
+           "seed": sc.get("seed", 1), "time_cap_s": int(horizon / S) + 100, "step_cap": 1_500_000,
+           # (with a blocked application thread the old ping thread can only leave once that send() has returned)
+           "linger": max(rr + 8 * S, (int(sender.get("at", 0)) + int(sender.get("block", 0)) + 4 * S) if sender else 0),
            "max_attempts": len(outs) + 12}
     out = run_app(asc, choices)
     w = out["world"]
